@@ -76,3 +76,78 @@ Proof.
   destruct (bp_matrix_of_F2 bp (t_loaded t) _ _ HF') as [ts [T1 T2]].
   rewrite T1, T2. reflexivity.
 Qed.
+
+(* ---- the repair of the allele index changes nothing on biallelic variants -------------------- *)
+
+(* v's variant is present, has exactly two alleles, and v lists one of them *)
+Definition bi_ok (G : geno) (v : hvar) : bool :=
+  match find_var (hv_id v) (g_vars G) 0 with
+  | Some (_, gv) =>
+      match gv_alleles gv with
+      | [r; b] => (hv_allele v =? r) || (hv_allele v =? b)
+      | _ => false
+      end
+  | None => false
+  end.
+
+Lemma allele_index_bi a r b :
+  (a =? r) || (a =? b) = true -> allele_index true a [r; b] = allele_index false a [r; b].
+Proof.
+  intros H. unfold allele_index, index_of. cbn. rewrite (Z.eqb_sym r a), (Z.eqb_sym b a).
+  destruct (a =? r) eqn:E1; [reflexivity|]. cbn in H. rewrite H. reflexivity.
+Qed.
+
+Lemma allele_arr_legacy_eq G hv :
+  forallb (bi_ok G) hv = true ->
+  allele_arr true (map hv_allele hv) (map snd (lookup (map hv_id hv) (g_vars G)))
+  = allele_arr false (map hv_allele hv) (map snd (lookup (map hv_id hv) (g_vars G))).
+Proof.
+  induction hv as [|v hv IH]; cbn; intros H; [reflexivity|].
+  apply andb_true_iff in H. destruct H as [Hv Hr]. unfold lookup. cbn [map flat_map]. fold (lookup (map hv_id hv) (g_vars G)).
+  unfold bi_ok in Hv. destruct (find_var (hv_id v) (g_vars G) 0) as [[j gv]|]; [|discriminate].
+  cbn [app map snd allele_arr].
+  destruct (gv_alleles gv) as [|r [|b [|c rest]]]; try discriminate.
+  pose proof (allele_index_bi _ r b Hv) as E. unfold allele_index in E. rewrite <- E, (IH Hr). reflexivity.
+Qed.
+
+Theorem legacy_agrees_on_biallelic_lemma G h :
+  forallb (bi_ok G) (h_vars h) = true ->
+  hap_transform_anc_legacy h G = hap_transform_anc h G.
+Proof.
+  intros H. unfold hap_transform_anc_legacy, hap_transform_anc, hap_transform_anc_gen, hap_prepare.
+  rewrite (allele_arr_legacy_eq G (h_vars h) H). reflexivity.
+Qed.
+
+Theorem legacy_set_agrees_on_biallelic_lemma G H0 :
+  forallb (fun h => forallb (bi_ok G) (h_vars h)) (real_haps H0) = true ->
+  haps_transform_anc_gen true false H0 G = haps_transform_anc H0 G.
+Proof.
+  intros H. unfold haps_transform_anc, haps_transform_anc_gen, haps_prepare.
+  pose proof (allele_arr_legacy_eq G (map kv (keys_of (real_haps H0)))) as P.
+  rewrite !map_map in P. cbn in P.
+  change (fun x : key => fst x) with (@fst Z Z) in P.
+  change (fun x : key => snd x) with (@snd Z Z) in P.
+  unfold key in *. rewrite P; [reflexivity|].
+  apply forallb_forall. intros v Hv. apply in_map_iff in Hv. destruct Hv as [k [<- Hk]].
+  apply keys_of_In in Hk. destruct Hk as [h [v [Hh [Hv <-]]]].
+  rewrite forallb_forall in H. specialize (H h Hh). rewrite forallb_forall in H. exact (H v Hv).
+Qed.
+
+(* ---- cells of the set-wise result, declaratively ------------------------------------------------ *)
+
+Theorem set_cells_spec_lemma G (anc : bool) H0 recs M :
+  has_dup (map gv_id (g_vars G)) = false ->
+  set_tr anc H0 G = Ok (recs, M) ->
+  forall s da i h, nth_error (rows G anc) s = Some da -> nth_error (real_haps H0) i = Some h ->
+    exists row b0 b1, nth_error M s = Some row /\ nth_error row i = Some (b0, b1)
+      /\ (b0 = true <-> strand_prop G anc h (fst (fst da)) (fst (snd da)))
+      /\ (b1 = true <-> strand_prop G anc h (snd (fst da)) (snd (snd da))).
+Proof.
+  intros Hd Hs s da i h Hr Hi.
+  destruct (haps_transform_closed_gen G anc H0 Hd) as [C1 C2].
+  destruct (forallb (hap_okb G) (real_haps H0)) eqn:Eok.
+  - rewrite (C1 eq_refl) in Hs. inversion Hs; subst.
+    destruct (spec_mat_cell G anc (real_haps H0) s da i h Hr Hi) as [row [R1 R2]].
+    exists row. eexists. eexists. split; [exact R1|]. split; [exact R2|]. split; apply spec_strand_spec.
+  - destruct (C2 eq_refl) as [k [Hk _]]. rewrite Hk in Hs. discriminate.
+Qed.
